@@ -51,11 +51,14 @@ func genC18(rt *rapid.T) interface{} {
 	seenN := map[string]bool{}
 	for len(sc.Names) < nn {
 		var b []byte
-		switch rapid.IntRange(0, 3).Draw(rt, "nkind") {
+		switch rapid.IntRange(0, 4).Draw(rt, "nkind") {
 		case 0:
 			b = []byte(rapid.StringN(0, 20, 100).Draw(rt, "name"))
 		case 1:
 			b = rapid.SliceOfN(rapid.Byte(), 0, 100).Draw(rt, "nameb")
+		case 2:
+			// long names (file-name length limits are where implementations start to shorten)
+			b = rapid.SliceOfN(rapid.Byte(), 50, 100).Draw(rt, "namelong")
 		default:
 			b = []byte(rapid.StringOfN(rapid.RuneFrom([]rune("abcDEF012-:")), 1, 36, 36).Draw(rt, "namea"))
 		}
@@ -174,14 +177,17 @@ func runC18(t *testing.T, sci interface{}) *Outcome {
 					want = append(want, k)
 				}
 			}
-			for n := range ents {
-				k := hex.EncodeToString([]byte(n)) + ".entity"
-				if strings.HasSuffix(k, suf) {
-					want = append(want, k)
-				}
-			}
 			sort.Strings(want)
-			g := append([]string(nil), got...)
+			// how the database names the keys of its entities is its own business: keys it may have
+			// created (anything ending in .entity that was not set through this API) are not judged here,
+			// its listing is judged through Entities()
+			var g []string
+			for _, k := range got {
+				if _, mine := model[k]; !mine && strings.HasSuffix(k, ".entity") && len(ents) > 0 {
+					continue
+				}
+				g = append(g, k)
+			}
 			sort.Strings(g)
 			if strings.Join(g, "\x00") != strings.Join(want, "\x00") {
 				return fail(i, "list-mismatch", "KeysWithSuffix(%q) = %q, live keys are %q", suf, g, want)
